@@ -31,7 +31,8 @@ On(c) == c \in Clauses
 
 FirstFail(s2, e) ==
   LET o == e.obs hs == Handles(s2) IN
-  IF e.exc # "none" THEN "exc"
+  IF e.exc_np # "none" THEN "np_model_mismatch:exc"   \* NumPy itself rejects a statement the generator thought legal
+  ELSE IF e.exc # "none" THEN "exc"     \* (an admissible InvalidBackprop is handled in TNext)
   ELSE IF {h \in 1..Len(o.t) : o.t[h].live} # hs THEN "handles"
   \* --- the NumPy twin first: a disagreement here means the MODEL of NumPy is wrong (machinery error)
   ELSE IF \E h \in hs : o.t[h].np_sh # s2.H[h].sh THEN "np_model_mismatch:shape"
@@ -60,10 +61,12 @@ Detail(s2, e, v) ==
 TInit == tid \in 1..Len(Traces) /\ l = 1 /\ st = InitSt /\ verdict = "ok"
 TNext == /\ verdict = "ok" /\ l <= Len(Traces[tid])
          /\ LET e  == Traces[tid][l]
-                s2 == Apply(st, e.stmt)
-                v  == FirstFail(s2, e)
+                loud == e.exc = "InvalidBackprop" /\ e.stmt.k = "backward" /\ PartialClear(st, e.stmt.h)
+                s2 == IF loud THEN st ELSE Apply(st, e.stmt)
+                v  == IF loud THEN "ok" ELSE FirstFail(s2, e)
             IN /\ st' = s2 /\ verdict' = v /\ l' = l + 1 /\ UNCHANGED tid
                /\ (v # "ok" \/ l = Len(Traces[tid])) => PrintT(<<"VERDICT", tid, v, l>>)
                /\ (v # "ok") => PrintT(Detail(s2, e, v))
+               /\ (v # "ok" /\ s2.kf # {}) => PrintT(<<"TAINT", tid, s2.kf>>)
 TSpec == TInit /\ [][TNext]_vars
 =============================================================================
